@@ -10,6 +10,7 @@ import common
 import gen
 import routes
 from common import Case, Issue, q, ql, line
+from thr_common import U53, FLBOUND_SLACK, fl_in_range, fl_bucket
 
 ID = "C07"
 LEVEL = "proof"
@@ -26,7 +27,11 @@ EXPLANATION = ("The Lean model of Scores.auc mirrors the code (+-ulp points, sor
 TRUSTED_BASE = ["Lean 4.33 kernel", "axioms propext/Classical.choice/Quot.sound only",
                 "hand-written model SA/Model/Auc.lean tied to /repo by this correspondence run",
                 "np.nextafter as an oracle (driver: exact float64 neighbour)", "np.trapezoid / np.searchsorted by documented meaning"]
-ASSUMPTIONS = ["finite scores; both classes non-empty", "float rounding of the trapezoid sum within 1e-9"]
+ASSUMPTIONS = ["finite scores; both classes non-empty",
+               "float rounding of the trapezoid sum: within FLBOUND_SLACK x aucEps (SA.Scores.auc_fl_error: standard model "
+               "|fl x - x| <= u|x|, u = 2^-53, one rounding per rate / difference / sum / product / halving, the terms added "
+               "in ANY order) wherever the theorem's guard holds (every comparison of the code is between values that "
+               "are equal or farther apart than their roundings; inputs in [2^-200, 2^200]); within 1e-9 everywhere"]
 AXES = [("fpr", "tpr"), ("fpr", "fnr"), ("tnr", "tpr"), ("tpr", "fpr"), ("fnr", "tnr"), ("tnr", "fnr")]
 
 
@@ -109,7 +114,7 @@ def build(inp) -> Case:
         if r_ is not None and r_[1] and r_[2]:
             s, pos, neg, ep, en, sc, ec = r_
             routed = inp["route"]
-    pre, lines, obs = pre0, [], []
+    pre, lines, blines, obs = pre0, [], [], []
     eps = Fraction(1, 10**9)
     queries = [(lo, hi, "fpr", "tpr") for lo, hi in inp["ivs"]]
     queries.append((inp["ivs"][1][0], inp["ivs"][1][1], inp["axes"][0], inp["axes"][1]))
@@ -131,6 +136,9 @@ def build(inp) -> Case:
 
         lines.append(line("auc", pos=ql(pos), neg=ql(neg), ep=ep, en=en, sc=sc, ec=ec, sorted=0,
                           lower=q(snap(lo)), upper=q(snap(hi)), xm=xa, ym=ya, eps=q(eps), obs=_o(v)))
+        # second line per query: the theorem-derived bound between the float AUC and the exact model's (op `aucbound`)
+        blines.append(line("aucbound", pos=ql(pos), neg=ql(neg), ep=ep, en=en, sc=sc, ec=ec, sorted=0,
+                           lower=q(snap(lo)), upper=q(snap(hi)), xm=xa, ym=ya, u=q(U53)))
     xties = bool(set(pos) & set(neg))
 
     def A(lo, hi, xa="fpr", ya="tpr"):
@@ -158,9 +166,32 @@ def build(inp) -> Case:
     if ep or en:
         tags.append("easy")
 
+    fl_ok_inputs = fl_in_range(pos) and fl_in_range(neg)
+    nq = len(queries)
+
     def judge(outs):
         iss = []
-        for (lo, hi, xa, ya), v, o in zip(queries, obs, outs):
+        worst = None
+        # --- float-bound: |impl - model| against aucEps (SA.Scores.auc_fl_error) wherever its guard holds
+        for (lo, hi, xa, ya), v, o2 in zip(queries, obs, outs[nq:]):
+            if "err" in o2 or not fl_ok_inputs or o2["ok"] != "1" or math.isnan(v) or math.isinf(v):
+                continue
+            if not fl_in_range([lo, hi]):
+                continue
+            m2 = common.pfrac(o2["auc"])
+            if m2 is None:
+                continue
+            bound = Fraction(o2["eps"])
+            d = abs(Fraction(v) - m2)
+            ratio = d / bound if bound > 0 else (Fraction(0) if d == 0 else Fraction(10**6))
+            worst = ratio if worst is None or ratio > worst else worst
+            if d > FLBOUND_SLACK * bound:
+                iss.append(Issue("DISAGREE", "float-bound", f"auc({lo},{hi},{xa},{ya}) impl={v} model={float(m2)} differ by "
+                                 f"{float(d):.3e} > {FLBOUND_SLACK} x {float(bound):.3e} (theorem bound aucEps, {o2['n']} terms; "
+                                 f"ratio {float(ratio):.2f})", f"auc/{xa}/{ya}/float-bound"))
+        case.tags = case.tags + ("float-bound ratio " + fl_bucket(worst),)
+        case.flratio = worst
+        for (lo, hi, xa, ya), v, o in zip(queries, obs, outs[:nq]):
             m = common.pfrac(o["auc"])
             if not common.close(v, m, rel=Fraction(1, 10**9), abs_=Fraction(1, 10**9)):
                 iss.append(Issue("DISAGREE", "auc", f"auc({lo},{hi},{xa},{ya}) impl={v} model={None if m is None else float(m)}", f"auc/{xa}/{ya}"))
@@ -171,7 +202,9 @@ def build(inp) -> Case:
                                      f"{'nan' if ref == 'nan' else float(Fraction(ref))} (cfg {sc},{ec}, ep={ep}, en={en})", f"auc/{cl}"))
         return iss
 
-    return Case(ID, inp, lines, judge, tuple(tags), 0, pre)
+    case = Case(ID, inp, lines + blines, None, tuple(tags), 0, pre)
+    case.judge = judge
+    return case
 
 
 def shrink_candidates(inp):
